@@ -11,7 +11,7 @@ RULE = ("(a) pass: random programs (anonymous and native gate sets) with subcirc
         "parse_jaqal_output_list in both spellings (subcircuit {B} vs prepare_all;B;measure_all) with the same numpy seed; "
         "non-trivial = program contains a subcircuit block; distinct = S-expression + mode")
 ASSUMPTIONS = ["reference expansion in vf/meaning.py", "harness native gate set (vf/gateset.py)"]
-TIERS = {"quick": {"shards": 8, "budget_s": 90}, "thorough": {"shards": 16, "budget_s": 300}}
+TIERS = {"quick": {"shards": 8, "budget_s": 180}, "thorough": {"shards": 16, "budget_s": 300}}
 REQUIRE = {"macro-named-like-a-bounding-gate": 150, "native:only-one-bounding-gate": 40, "caller:names-mixed": 100, "subcircuit-body-with-explicit-prepare-or-measure": 300, "route:build": 500, "native:partial": 100, "calls-after-earlier-call-on-same-object": 500, "sub-in-macro": 20, "sub-in-loop": 20, "mode:pass": 200, "mode:exec": 100, "native-bounding-gates": 50,
            "caller-bounding-gates": 20, "exec-readouts-compared": 100}
 
